@@ -41,6 +41,7 @@ func main() {
 		var ops, outs []string
 		var held []heldValue
 		var used []uint64
+		var pool []*big.Int
 		current := map[uint64]*big.Int{}
 		allProofs := d <= 8 || ln <= 6
 		for i := 0; i < ln; i++ {
@@ -69,6 +70,21 @@ func main() {
 			if g.Chance(1, 6) {
 				v = big.NewInt(0)
 			}
+			if g.Chance(1, 5) {
+				// leaf values that coincide with node hashes: the hash of an empty subtree of some
+				// height (what an untouched region of the tree carries at that level), a sibling
+				// hash from an earlier path, or an earlier root.  Legal values like any other.
+				switch k := g.Intn(3); {
+				case k == 0 || len(pool) == 0:
+					et := poseidon_tree.NewTree(1 + g.Intn(d))
+					er := et.Root()
+					v = new(big.Int).Set(&er)
+					stat["value=empty-subtree-hash"]++
+				default:
+					v = new(big.Int).Set(pool[g.Intn(len(pool))])
+					stat["value=earlier-node-hash"]++
+				}
+			}
 			if cur, ok := current[idx%size]; ok && g.Chance(1, 5) {
 				v = new(big.Int).Set(cur) // rewrite a leaf with the value it already holds
 				stat["rewrite-same"]++
@@ -77,6 +93,12 @@ func main() {
 			stat[fmt.Sprintf("kind%d", kind)]++
 			proof := tree.Update(int(idx), *v)
 			root := tree.Root()
+			if len(pool) < 64 {
+				pool = append(pool, new(big.Int).Set(&root))
+				for j := range proof {
+					pool = append(pool, new(big.Int).Set(&proof[j]))
+				}
+			}
 			// what the tree hands out belongs to the caller: keep the very values (not copies) and
 			// look at them again after the later updates
 			held = append(held, heldValue{step: i, what: "root", v: root, was: root.String()})
